@@ -9,12 +9,13 @@ every dimension, batch, state, history, ranking permutation, parent count and
 every admissible supplied value of `log` / `sqrt` / `exp`.
 
 * T18.1  `weights_of_values`, `weights_pos_decreasing_sum_one`, `weights_real_log`, `weights_model`
-* T18.2  `mean_is_weighted_average`, `mean_convex`, `mean_in_halfspace`, `cma_mean_update`
+* T18.2  `mean_is_weighted_average`, `mean_convex`, `mean_in_halfspace`, `cma_mean_update`,
+         `sep_mean_update`, `lm_mean_update`
 * T18.3  `cma_zero_parents`, `sep_zero_parents`, `lm_zero_parents`
 * T18.4  `order_only`, `order_only_sep`, `order_only_lm`, `order_only_openai`
 * T18.5  `cov_psd_preserved_real`, `cov_psd_preserved_rat`, `cma_coefficients`, `cma_cov_psd`,
          `cma_tell_valid`, `cma_history_valid`, `sep_cov_nonneg`, `sep_cov_pos`
-* T18.6  `sigma_pos_real`, `sigma_pos` (and the `…_valid` theorems)
+* T18.6  `sigma_pos_real`, `sigma_pos`, `sep_tell_valid`, `lm_tell_sigma_pos` (and `cma_tell_valid`)
 * T18.7  `reset_initial`, `reset_forgets`
 * T18.8  `resample_record`, `openai_noise_matches`
 * T18.9  `ascent_closed_form`
@@ -617,6 +618,143 @@ theorem openai_gradient (c : OpenaiCfg) (noise : List (Vec n)) (perm : List Nat)
         · intro hm j
           rw [← h]; simp [hm, openaiGradMirror, normRank]
 
+
+/-! ## sep-CMA-ES and LM-MA-ES through `tell` (T18.2, T18.5 diagonal, T18.6) -/
+
+/-- what a successful sep-CMA-ES `tell` did -/
+theorem sepTell_ok (batch : Nat) (st st' : SepState n) (sols : List (Vec n)) (perm : List Nat)
+    (mu : Nat) (sup : SepSup n) (d : Diag) (h : sepTell n batch st sols perm mu sup = .ok (st', d)) :
+    ∃ rows, ranked sols perm = .ok rows ∧
+      ((mu = 0 ∧ st' = { st with evals := st.evals + perm.length }) ∨
+       (0 < mu ∧ mu ≤ rows.length ∧ 0 < n ∧ 0 < st.sigma ∧ logsOk sup.lh sup.ls mu = true ∧
+        (st', d) = sepCore n (2 * (st.evals + perm.length) / batch) (st.evals + perm.length) st
+          (rows.take mu) sup)) := by
+  unfold sepTell at h
+  split at h
+  · simp at h
+  · rename_i rows hr
+    refine ⟨rows, hr, ?_⟩
+    by_cases hmu : mu = 0
+    · left
+      simp only [hmu, if_true, Except.ok.injEq, Prod.mk.injEq] at h
+      exact ⟨hmu, h.1.symm⟩
+    · right
+      simp only [hmu, if_false] at h
+      split at h
+      · simp at h
+      · split at h
+        · simp at h
+        · split at h
+          · simp at h
+          · split at h
+            · simp at h
+            · split at h
+              · simp at h
+              · split at h
+                · simp at h
+                · split at h
+                  · simp at h
+                  · rename_i h1 h2 h3 h4 h5 h6 h7
+                    simp only [Except.ok.injEq] at h
+                    refine ⟨by omega, by omega, by omega, by linarith [not_le.mp h5], by simpa using h7, h.symm⟩
+
+/-- what a successful LM-MA-ES `tell` did -/
+theorem lmTell_ok (c : LmCfg) (st st' : LmState c.n) (sols zs : List (Vec c.n)) (perm : List Nat)
+    (mu : Nat) (sup : LmSup) (d : Diag) (h : lmTell c st sols zs perm mu sup = .ok (st', d)) :
+    (mu = 0 ∧ st' = { st with gens := st.gens + 1 }) ∨
+    (0 < mu ∧ ∃ rows zrows, ranked sols perm = .ok rows ∧ ranked zs perm = .ok zrows ∧
+      mu ≤ rows.length ∧ mu ≤ zrows.length ∧ logsOk sup.lh sup.ls mu = true ∧
+      (st', d) = lmCore c st (rows.take mu) (zrows.take mu) sup) := by
+  unfold lmTell at h
+  by_cases hmu : mu = 0
+  · left
+    simp only [hmu, if_true, Except.ok.injEq, Prod.mk.injEq] at h
+    exact ⟨hmu, h.1.symm⟩
+  · right
+    simp only [hmu, if_false] at h
+    split at h
+    · simp at h
+    · simp at h
+    · rename_i rows zrows hr hz
+      split at h
+      · simp at h
+      · split at h
+        · simp at h
+        · split at h
+          · simp at h
+          · split at h
+            · simp at h
+            · rename_i h1 h2 h3 h4
+              simp only [Except.ok.injEq] at h
+              exact ⟨by omega, rows, zrows, hr, hz, by omega, by omega, by simpa using h4, h.symm⟩
+
+/-- T18.2 through `tell` for sep-CMA-ES -/
+theorem sep_mean_update (batch : Nat) (st st' : SepState n) (sols : List (Vec n)) (perm : List Nat)
+    (mu : Nat) (hmu : 0 < mu) (sup : SepSup n) (d : Diag)
+    (h : sepTell n batch st sols perm mu sup = .ok (st', d)) :
+    ∃ rows, ranked sols perm = .ok rows ∧
+      st'.mean = recombine (weights sup.lh sup.ls) (rows.take mu) ∧
+      ∀ j lo hi, (∀ x ∈ rows.take mu, lo ≤ x j ∧ x j ≤ hi) → lo ≤ st'.mean j ∧ st'.mean j ≤ hi := by
+  obtain ⟨rows, hr, hcase⟩ := sepTell_ok batch st st' sols perm mu sup d h
+  refine ⟨rows, hr, ?_⟩
+  rcases hcase with ⟨h0, _⟩ | ⟨_, hlen, _, _, hlog, hcore⟩
+  · omega
+  · have hmean : st'.mean = recombine (weights sup.lh sup.ls) (rows.take mu) := by
+      have := congrArg (fun p => p.1.mean) hcore
+      simpa [sepCore] using this
+    refine ⟨hmean, ?_⟩
+    intro j lo hi hx
+    obtain ⟨hp, _, hs, hl⟩ := weights_model sup.lh sup.ls mu hmu hlog
+    rw [hmean]
+    exact mean_convex _ _ j lo hi (by simp [hl]; omega) (fun w hw => (hp w hw).le) hs hx
+
+/-- T18.2 through `tell` for LM-MA-ES -/
+theorem lm_mean_update (c : LmCfg) (st st' : LmState c.n) (sols zs : List (Vec c.n)) (perm : List Nat)
+    (mu : Nat) (hmu : 0 < mu) (sup : LmSup) (d : Diag)
+    (h : lmTell c st sols zs perm mu sup = .ok (st', d)) :
+    ∃ rows, ranked sols perm = .ok rows ∧
+      st'.mean = recombine (weights sup.lh sup.ls) (rows.take mu) ∧
+      ∀ j lo hi, (∀ x ∈ rows.take mu, lo ≤ x j ∧ x j ≤ hi) → lo ≤ st'.mean j ∧ st'.mean j ≤ hi := by
+  rcases lmTell_ok c st st' sols zs perm mu sup d h with ⟨h0, _⟩ | ⟨_, rows, zrows, hr, _, hlen, _, hlog, hcore⟩
+  · omega
+  · refine ⟨rows, hr, ?_⟩
+    have hmean : st'.mean = recombine (weights sup.lh sup.ls) (rows.take mu) := by
+      have := congrArg (fun p => p.1.mean) hcore
+      simpa [lmCore] using this
+    refine ⟨hmean, ?_⟩
+    intro j lo hi hx
+    obtain ⟨hp, _, hs, hl⟩ := weights_model sup.lh sup.ls mu hmu hlog
+    rw [hmean]
+    exact mean_convex _ _ j lo hi (by simp [hl]; omega) (fun w hw => (hp w hw).le) hs hx
+
+/-- T18.5 (diagonal) + T18.6 for one sep-CMA-ES `tell`: non-negative diagonal and positive step size
+are kept (supplied `√n` accepted by the model's bracket, positive supplied exponential) -/
+theorem sep_tell_valid (batch : Nat) (st st' : SepState n) (sols : List (Vec n)) (perm : List Nat)
+    (mu : Nat) (sup : SepSup n) (d : Diag) (h : sepTell n batch st sols perm mu sup = .ok (st', d))
+    (hC : ∀ j, 0 ≤ st.cov j) (hsig : 0 < st.sigma) (he : 0 < sup.expV)
+    (hsN : sqrtOk (n : Rat) sup.sN = true) :
+    (∀ j, 0 ≤ st'.cov j) ∧ 0 < st'.sigma := by
+  obtain ⟨rows, _, hcase⟩ := sepTell_ok batch st st' sols perm mu sup d h
+  rcases hcase with ⟨_, rfl⟩ | ⟨hmu, _, hn, _, hlog, hcore⟩
+  · exact ⟨hC, hsig⟩
+  · have h1 : st' = (sepCore n (2 * (st.evals + perm.length) / batch) (st.evals + perm.length) st
+        (rows.take mu) sup).1 := congrArg Prod.fst hcore
+    rw [h1]
+    refine ⟨sep_core_cov_nonneg _ _ mu hn hmu st _ sup hlog hsN hC, ?_⟩
+    simp only [sepCore]
+    exact mul_pos hsig he
+
+/-- T18.6 for one LM-MA-ES `tell` -/
+theorem lm_tell_sigma_pos (c : LmCfg) (st st' : LmState c.n) (sols zs : List (Vec c.n))
+    (perm : List Nat) (mu : Nat) (sup : LmSup) (d : Diag)
+    (h : lmTell c st sols zs perm mu sup = .ok (st', d)) (hsig : 0 < st.sigma) (he : 0 < sup.expV) :
+    0 < st'.sigma := by
+  rcases lmTell_ok c st st' sols zs perm mu sup d h with ⟨_, rfl⟩ | ⟨_, rows, zrows, _, _, _, _, _, hcore⟩
+  · exact hsig
+  · have h1 : st' = (lmCore c st (rows.take mu) (zrows.take mu) sup).1 := congrArg Prod.fst hcore
+    rw [h1]
+    simp only [lmCore]
+    exact mul_pos hsig he
 
 /-! ## non-vacuity: concrete instances satisfying the hypotheses above -/
 
